@@ -131,14 +131,29 @@ func handbackProblem(c *Ctx, f *ssa.Function, adj *ssa.Call, getter, setter *ssa
 			}
 		}
 	}
-	if rst == nil {
+	// ... or a deferred call of the setter registered before the adjudication: its argument is evaluated when it is
+	// registered, and it runs on every way out of the function
+	var args []ssa.Value
+	var dfr ssa.Instruction
+	if rst != nil {
+		args = rst.Call.Args
+	} else {
+		for _, b2 := range f.Blocks {
+			for _, i2 := range b2.Instrs {
+				if df, ok := i2.(*ssa.Defer); ok && df.Call.StaticCallee() == setter && instrDominates(df, adj) && dfr == nil {
+					args, dfr = df.Call.Args, df
+				}
+			}
+		}
+	}
+	if rst == nil && dfr == nil {
 		return "AdjudicateNoLegalMoves writes the result of the board it is given and no call of the result setter follows on every path to the return: at the root no take-back follows either, so a search of a checkmated or stalemated position hands the caller's board back adjudicated (Result() changes from undecided to Checkmate/Stalemate)"
 	}
-	if len(rst.Call.Args) < 2 {
+	if len(args) < 2 {
 		return "result setter without argument"
 	}
 	var defs []ssa.Value
-	resolveDefs(rst.Call.Args[1], map[ssa.Value]bool{}, &defs)
+	resolveDefs(args[1], map[ssa.Value]bool{}, &defs)
 	if len(defs) == 0 {
 		return "the result written back is not identified"
 	}
@@ -162,7 +177,7 @@ func handbackProblem(c *Ctx, f *ssa.Function, adj *ssa.Call, getter, setter *ssa
 			if i3 == ssa.Instruction(adj) {
 				break
 			}
-			if between && boardOp(i3) {
+			if between && i3 != dfr && boardOp(i3) {
 				bad = "a board operation at " + c.pos(i3.Pos()) + " lies between the read of the old result and the adjudication"
 			}
 		}
